@@ -358,3 +358,21 @@ V("c19-n-zero-allowed", "C19", "fire", SE, "        elif type(n) == int and n <=
 V("c19-no-super-sample", "C19", "fire", SE, "        # Checks inputs\n        super().sample(n)\n", "", rule="CONTRACT.delegated-sample", what="n never validated")
 V("c19-silent-isinstance", "C19", "silent", SE, "        elif type(n) == int and n <= 0:", "        elif isinstance(n, int) and n <= 0:", what="isinstance for type ==")
 V("c19-silent-seed-if", "C19", "silent", SE, "        np.random.seed(random_state) if random_state is not None else None\n", "        if random_state is not None:\n            np.random.seed(random_state)\n", what="if statement")
+
+# ------------------------------------------------------------------------------- C07
+V("c07-member-no-skeleton", "C07", "fire", UT, "return same_vstructures and same_orientation and same_skeleton", "return same_vstructures and same_orientation", rule="MEMBER", what="skeleton condition dropped")
+V("c07-member-or", "C07", "fire", UT, "return same_vstructures and same_orientation and same_skeleton", "return same_vstructures or (same_orientation and same_skeleton)", rule="MEMBER", what="or instead of and", accept_inconclusive=True)
+V("c07-member-vs-P-P", "C07", "fire", UT, "same_vstructures = vstructures(P) == vstructures(G)", "same_vstructures = vstructures(P) == vstructures(P)", rule="MEMBER", what="v-structures of G never looked at")
+V("c07-member-orientation-any", "C07", "fire", UT, "same_orientation = G[directed_P != 0].all()", "same_orientation = G[directed_P != 0].any()", rule="MEMBER", what="one kept directed edge suffices", accept_inconclusive=True)
+V("c07-filter-no-consistency", "C07", "fire", UT, "dags = [A for A in dags if is_dag(A) and is_consistent_extension(A, pdag)]", "dags = [A for A in dags if is_dag(A)]", rule="FILTER.both", what="inconsistent extensions returned")
+V("c07-filter-swapped-args", "C07", "fire", UT, "dags = [A for A in dags if is_dag(A) and is_consistent_extension(A, pdag)]", "dags = [A for A in dags if is_dag(A) and is_consistent_extension(pdag, A)]", rule="FILTER.both", what="arguments swapped", accept_inconclusive=True)
+V("c07-candidate-adds", "C07", "fire", UT, "        A[oriented_edges[:, 1], oriented_edges[:, 0]] = 0\n", "        A[oriented_edges[:, 1], oriented_edges[:, 0]] = 0\n        A[oriented_edges[:, 0], oriented_edges[:, 1]] = 1\n", rule="FILTER.candidates", what="candidates also write entries", accept_inconclusive=True)
+V("c07-trivial-empty", "C07", "fire", UT, "        return np.array([pdag.copy()])\n", "        return np.array([])\n", rule="FILTER.trivial", what="fully directed PDAG has no extension")
+V("c07-dispatch-always-chain", "C07", "fire", UT, "    if check_chain and is_chain_graph(A):\n        return chain_graph_MEC(len(A))", "    if check_chain:\n        return chain_graph_MEC(len(A))", rule="DISPATCH", what="every DAG treated as a chain")
+V("c07-dispatch-skeleton-chain", "C07", "fire", UT, "        cpdag = dag_to_cpdag(A)\n        return all_dags(cpdag)", "        cpdag = skeleton(A)\n        return all_dags(cpdag)", rule="DISPATCH", what="enumerates all orientations of the skeleton")
+V("c07-chain-misses-last", "C07", "fire", UT, "        for j in range(i, p - 1):\n            A[j, j + 1] = 1", "        for j in range(i, p - 2):\n            A[j, j + 1] = 1", rule="CHAIN.partition", what="last chain edge never oriented")
+V("c07-chain-forward-wrong-way", "C07", "fire", UT, "        for j in range(i, p - 1):\n            A[j, j + 1] = 1", "        for j in range(i, p - 1):\n            A[j + 1, j] = 1", rule="CHAIN.partition", what="forward half oriented towards the root")
+V("c07-chain-roots-short", "C07", "fire", UT, "    MEC = []\n    for i in range(p):", "    MEC = []\n    for i in range(p - 1):", rule="CHAIN", what="one member of the chain MEC missing")
+V("c07-chain-shared-matrix", "C07", "fire", UT, "    MEC = []\n    for i in range(p):\n        A = np.zeros((p, p))\n", "    MEC = []\n    A = np.zeros((p, p))\n    for i in range(p):\n", rule="CHAIN", what="one matrix reused for all roots", accept_inconclusive=True)
+V("c07-silent-member-order", "C07", "silent", UT, "return same_vstructures and same_orientation and same_skeleton", "return same_skeleton and same_vstructures and same_orientation", what="conjunct order")
+V("c07-silent-filter-loop", "C07", "silent", UT, "same_skeleton = (skeleton(P) == skeleton(G)).all()", "same_skeleton = (skeleton(G) == skeleton(P)).all()", what="operands of == swapped")
